@@ -7,8 +7,6 @@
 From Coq Require Import List NArith Bool String.
 From Verif Require Import Kv.KeyOrd Kv.AList Kv.Spec Kv.Mem Kv.Sql Kv.Refine Kv.Facts Kv.KvGen
   Kv.KvCorr Gen.KvSql.
-From Coq Require Import ZArith.
-From Verif Require Import Lib.GoLib Kv.CodeCands Kv.CodeRefine Gen.CodeKv.
 Import ListNotations.
 Local Open Scope N_scope.
 
@@ -172,39 +170,6 @@ Theorem C05_unordered_any_key : forall hk k,
   map_key gen_max_key_len false hk k = Some (hk k).
 Proof. exact (unordered_any_key gen_max_key_len). Qed.
 Print Assumptions C05_unordered_any_key.
-
-(** ** The code itself (semantic tie)
-
-    [gen_pisces_kvMapKey] and [gen_pisces_partialKeys] are the Go bodies of
-    kv_key.go / mem_kv.go as gen/gotrans.go translates them on every run
-    (Gen/CodeKv.v).  They compute the model on ALL inputs, for every hash
-    function; [None] of [partialKeys] is the slice-bounds panic. *)
-Theorem C05_code_kvMapKey_is_model : forall (hk : key -> key) (k : key) (ordered : bool),
-  kv_key_res (gen_pisces_kvMapKey hk k ordered) = map_key 255 ordered hk k.
-Proof. exact gen_kvMapKey_is_model. Qed.
-Print Assumptions C05_code_kvMapKey_is_model.
-
-Theorem C05_code_partialKeys_is_model : forall (off n : N) (ks : list (list N)),
-  lenN ks < two64 ->
-  gen_pisces_partialKeys (Z.of_N off) (Z.of_N n) ks = partial_keys off n ks.
-Proof. exact gen_partialKeys_is_model. Qed.
-Print Assumptions C05_code_partialKeys_is_model.
-
-Theorem C05_code_ordered_keys_verbatim : forall hk k,
-  (lenN k <= 255 -> gen_pisces_kvMapKey hk k true = (k, None)) /\
-  (255 < lenN k -> go_isnil (snd (gen_pisces_kvMapKey hk k true)) = false).
-Proof. exact code_map_key_ordered. Qed.
-Print Assumptions C05_code_ordered_keys_verbatim.
-
-Theorem C05_code_unordered_any_key : forall hk k, gen_pisces_kvMapKey hk k false = (hk k, None).
-Proof. exact code_map_key_hashed. Qed.
-Print Assumptions C05_code_unordered_any_key.
-
-Theorem C05_code_walk_window : forall (off n : N) (ks : list (list N)),
-  lenN ks < two64 -> off + n < two64 ->
-  gen_pisces_partialKeys (Z.of_N off) (Z.of_N n) ks = Some (window off n ks).
-Proof. exact code_partial_keys_window. Qed.
-Print Assumptions C05_code_walk_window.
 
 (** The two panic sites of the memory walk (slice bounds in partialKeys, nil
     entry in walkKeys) are unreachable whenever offset + limit does not wrap
